@@ -122,6 +122,14 @@ def hostile(rng, S):
             (f'gap-gap:{o}', ((), op('Disjunction', op(o, A, B), op('Disjunction', A, op('Disjunction', neg(A), op('Disjunction', B, neg(B))))))),
             (f'neg-cond-glut:{o}', ((neg(op(o, A, B)), B, neg(B)), neg(A))),
         ]
+    def tower(k, t):
+        for _ in range(k):
+            t = neg(t)
+        return t
+    for k in (2, 3, 4):
+        for li, lit in enumerate((A, neg(A))):
+            out += [(f'neg-tower:{k}:{li}', ((lit, tower(k, A)), B)), (f'neg-tower:{k}:{li}:rev', ((tower(k, A), lit), B)),
+                    (f'neg-tower:{k}:{li}:disj', ((lit, op('Disjunction', tower(k, A), B)), B))]
     out += [('explosion', ((A, neg(A)), B)), ('lem', ((B,), op('Disjunction', A, neg(A)))),
             ('disj-syll', ((op('Disjunction', A, B), neg(A)), B)), ('mp', ((A, op('MaterialConditional', A, B)), B)),
             ('mp:cond', ((A, op('Conditional', A, B)), B))]
